@@ -52,5 +52,11 @@ Judge(e) ==
 RECURSIVE SetToSeqS(_)
 SetToSeqS(S) == IF S = {} THEN <<>> ELSE LET x == CHOOSE y \in S : TRUE IN <<x>> \o SetToSeqS(S \ {x})
 
-Report == idx > 0 => PrintT(ToJson([id |-> Events[idx].id, fail |-> SetToSeqS(Judge(Events[idx]))]))
+(* ovf: an arithmetic result left TLC's 32 bits while this event was judged (module Rat): the    *)
+(* harness then counts the event as unknown, whatever the clause set says                          *)
+Report == idx > 0 =>
+  /\ OvfReset(idx)
+  /\ LET f == SetToSeqS(Judge(Events[idx])) IN
+     /\ f = f
+     /\ PrintT(ToJson([id |-> Events[idx].id, fail |-> f, ovf |-> OvfSeen(idx)]))
 =============================================================================
